@@ -456,6 +456,13 @@ def program_groups(ctx):
     groups.append({"name": "directed", "kind": "corpus", "sources": DIRECTED, "ops": ["fold", "visit", "walk", "ranges", "opt"],
                    "must_parse": True,
                    "note": "hand-written corpus: every node kind, optional fields present/absent, lists of length 0/1/many"})
+    import shapes
+    sh = shapes.all_shapes()
+    # batches of 40 shape statements per program keep the request count small; PEP 695 forms included (this parser accepts them)
+    batched = ["".join(sh[i:i + 40]) for i in range(0, len(sh), 40)]
+    groups.append({"name": "directed-shapes", "kind": "corpus", "sources": batched, "ops": ["fold", "visit", "walk", "ranges", "opt"],
+                   "note": "%d directed texts of tools/shapes.py in %d programs: every parameter-list section combination, with-items of "
+                           "every expression kind, rare productions" % (len(sh), len(batched))})
     groups.append({"name": "mode-expression", "kind": "corpus", "mode": ":x", "ops": ["fold", "ranges", "opt"], "must_parse": True,
                    "sources": ["a", "(1, 2)", "f(a, k=(1, (2, 3)))", "[i for i in j if (1, 2)]", "lambda a=1: (a, 2)", "x if y else (1,)"],
                    "note": "Mode::Expression roots (Mod::Expression)"})
